@@ -56,7 +56,11 @@ def read_graph(graph_raw) -> nx.DiGraph:
     header_lines = []
     constraint_subpaths = []       # list of subpaths, each a list of (u,v) edge tuples
     subpaths_seen = set()          # set of full node sequences (tuples) to filter duplicate subpaths
-    while idx < len(graph_raw) and graph_raw[idx].lstrip().startswith("#"):
+    while idx < len(graph_raw) and (graph_raw[idx].lstrip().startswith("#") or graph_raw[idx].strip() == ""):
+        if graph_raw[idx].strip() == "":
+            # blank lines may also separate header lines
+            idx += 1
+            continue
         stripped = graph_raw[idx].lstrip()
         # Subpath constraint line: starts with '#S'
         if stripped.startswith("#S"):
@@ -169,8 +173,8 @@ def read_graphs(filename):
 
         start = i
 
-        # Consume all consecutive header lines for this graph
-        while i < n_lines and lines[i].lstrip().startswith('#'):
+        # Consume all consecutive header lines for this graph (blank lines may separate them)
+        while i < n_lines and (lines[i].lstrip().startswith('#') or lines[i].strip() == ""):
             i += 1
 
         # Advance until the next header line (start of next graph) or EOF
